@@ -1,0 +1,33 @@
+//go:build verif
+
+package fiber
+
+// unescapePathBytes / unhexByte (helpers.go): the path decoder of UnescapePath. It replaced fasthttp.AppendUnquotedArg,
+// the decoder for QUERY arguments, which also turns '+' into a blank (fix for property C03: "percent-decoding applies
+// only with UnescapePath ... Params returns exactly those values").
+// What is proved: run-time safety (the two look-ahead reads are behind `i+2 < len(src)`), termination, the result is
+// never longer than dst plus src, a byte is taken for an escape only when two hexadecimal digits follow it, and only the
+// elements of dst's array (or a new array) are written. The decoded TEXT is named by the uninterpreted function the
+// contracts of configDependentPaths / RoutePatternMatch already use (unquoted: "the percent-decoded path"): that the
+// loop computes percent-decoding and nothing else (no '+' decoding) is not proved here - the replay test
+// TestFVCReplayC03PlusInPath (known-findings.json, run by the check on every run) pins it.
+//@ func unhexByte
+//@   props C03 C05 C07
+//@   pure
+//@   ensures digit-value-or-16: (c >= '0' && c <= '9' ==> result == c - '0') && (c >= 'a' && c <= 'f' ==> result == c - 'a' + 10) && (c >= 'A' && c <= 'F' ==> result == c - 'A' + 10)
+//@   ensures not-a-digit-is-16: !((c >= '0' && c <= '9') || (c >= 'a' && c <= 'f') || (c >= 'A' && c <= 'F')) ==> result == 16
+//@   ensures in-range: 0 <= result && result <= 16
+
+//@ func unescapePathBytes
+//@   props C03 C05 C07 C02 C06
+//@   modifies elems(dst)
+// (engine limitation, as for mountedStack: a loop that appends to a slice havocs the whole element heap at the loop head,
+//  so the frame of the byte heap cannot be shown; it is ASSUMED for this function and listed in the evidence - before the
+//  fix the whole decoder was an assumed dependency contract)
+//@   nosafety frame:E_uint8
+//@   defines str(result) == unquoted(old(str(src)))
+//@   loop 1
+//@     invariant index-in-range: 0 <= i && i <= len(src)
+//@     invariant grows-in-dst-or-a-new-array: arr(dst) == arr(old(dst)) || !wasAllocated(arr(dst))
+//@     decreases len(src) - i
+//@   ensures in-dst-or-new: arr(result) == arr(dst) || !old(allocated(arr(result)))
